@@ -9,7 +9,7 @@ import z3
 
 from pysx import engine, loader, stack
 from pysx.harness import CheckBase, main
-from pysx.serialmodel import FakePort, legacy_conforming, future_conforming, pieces, decode_payload
+from pysx.serialmodel import FakePort, legacy_conforming, future_conforming, pieces, decode_payload, fields, expected_fields, _isint
 from pysx.strs import NumTok, SymStr
 from pysx.values import SymInt
 
@@ -83,64 +83,6 @@ def spec_table():
 
 SPEC = spec_table()
 LEGACY_PREAMBLE = {"servo_timeout": ["V"], "query_voltage": ["V"]}   # version gate: the probe precedes the command
-
-
-def fields(payload):
-    """Written SymStr -> list of comma-separated fields (literal str or z3 Int term), or None if the text is
-    not of the form  field(,field)*<CR>  with each field a literal or exactly one formatted integer."""
-    pcs = pieces(payload)
-    if not pcs or not isinstance(pcs[-1], str) or not pcs[-1].endswith("\r"):
-        return None
-    pcs = list(pcs)
-    pcs[-1] = pcs[-1][:-1]
-    out = [""]
-    for p in pcs:
-        if isinstance(p, str):
-            parts = p.split(",")
-            for i, part in enumerate(parts):
-                if i > 0:
-                    out.append("")
-                if part:
-                    if not isinstance(out[-1], str):
-                        return None
-                    out[-1] += part
-        elif isinstance(p, NumTok):
-            if p.spec not in ("", "d") or not isinstance(p.num, SymInt) or out[-1] != "":
-                return None
-            out[-1] = p.num.t
-        else:
-            return None
-    if any(isinstance(f, str) and ("\r" in f or "\n" in f) for f in out):
-        return None
-    return out
-
-
-def expected_fields(cmd):
-    """expected piece list -> field list"""
-    out = [""]
-    for p in cmd:
-        if isinstance(p, bool):
-            p = int(p)
-        if isinstance(p, int):
-            p = str(p)
-        if isinstance(p, str):
-            parts = p.split(",")
-            for i, part in enumerate(parts):
-                if i > 0:
-                    out.append("")
-                out[-1] += part
-        else:
-            assert out[-1] == ""
-            out[-1] = p
-    return out
-
-
-def _isint(sx):
-    try:
-        int(sx)
-        return str(int(sx)) == sx
-    except ValueError:
-        return False
 
 
 def compare(payload, expected):
